@@ -12,6 +12,31 @@ ALL = [f"C{i:02d}" for i in range(1, 21)]
 
 # property -> (category, technique, level text, level note, design ref)
 CHECKS = {
+    "C05": ("exploration",
+            "stateful property testing (rapid) of subscriber trees with burst-paced streams under schedule perturbation; oracle = every leaf log is a suffix of the reference stream",
+            "Generated Subscribe/Clone trees (depth <= 3) receive a generated stream published in bursts of at most EventBufsiz/4 in-flight events; subscribers attach at generated moments and read with generated delays while the logger, GOMAXPROCS and consumer delays perturb the schedule. Each leaf's log must be exactly a suffix of the published sequence starting no later than its creation point (no gap, duplicate or reordering) and a cache read right after each event must not be older than the event.",
+            "Interleavings are perturbed, not enumerated; the in-flight bound of the property is enforced by the harness (cases where the harness itself overran a buffer are discarded and counted).",
+            "DESIGN.md section 4, C05"),
+    "C10": ("exploration",
+            "stateful property testing (rapid) with stalled/slow/blocked consumers; oracles = barrier completion, witness agreement, buffer-capacity lower bound, in-order subsequence",
+            "Generated trees in which a generated subset of plain subscribers never read, monitor handlers block and filtered subscriptions are left unread, while streams of up to 4x the buffer size are published. Barriers over the healthy nodes must complete (a blocked publisher shows up there), every healthy cache and strict mirror must be current at each barrier, healthy siblings must agree with their publisher's witness, the cache of an unread filtered subscription must stay current, and every released consumer must deliver at least min(sent, EventBufsiz) events as an in-order subsequence of what was sent.",
+            "No upper bound and no prefix-ness is demanded of a stalled consumer. Typed subscriptions as stalled consumers: see C20.",
+            "DESIGN.md section 4, C10"),
+    "C11": ("exploration",
+            "stateful property testing (rapid): tree state machine with close operations + close-moment scenarios (before ready, mid-stream, during Refilter, during relist) and mechanisms (Close, context cancel, list error); oracle = closed set equals the subtree, survivors fully functional",
+            "Every node kind (six attach kinds, monitors, root) is closed at quiet and at racing moments; afterwards exactly the subtree of the closed node must be done with its Events() closed, and every other node must keep Done/Events open, converge at the next barrier with an exact mirror and accept further Subscribe/Refilter/traffic. Root closures by Close, context cancellation and five kinds of fatal list results must take everything down and leave no library goroutine.",
+            "Joins as tree members are covered by C09's close oracle. Interleavings are perturbed, not enumerated.",
+            "DESIGN.md section 4, C11"),
+    "C12": ("fault_enumeration",
+            "shutdown-point enumeration over rapid-generated workloads (the same workload re-run with the trigger fired after every step index) with racing API calls, goroutine-leak detector and post-shutdown API sweep",
+            "For each generated workload every step index is used as a shutdown point on a fresh world, with triggers Close, 4 concurrent Close calls, context cancellation and list errors; workloads force the states named in the property (not yet ready, relist pending, reconnect timer pending, stalled consumers, refilters). Close()/Done() must complete within the wedge bound, the leak detector (goroutines created by library frames) must reach zero with the context still live, racing and post-shutdown API calls must return ErrNotRunning or a value, and objects obtained while racing must become done. fault_enumeration: the crash/shutdown points of each workload are enumerated completely; workloads themselves are sampled.",
+            "Bounded liveness: 10 s + 25 s confirmation against sub-millisecond normal latencies. The fake client honours context cancellation (premise of the property).",
+            "DESIGN.md section 4, C12"),
+    "C16": ("exploration",
+            "stateful property testing (rapid) with a recording handler and a witness subscription; oracle = init-first/once, 1:1 callback/event correspondence, serial execution, silence after Done",
+            "Monitors on root, clone and filtered-clone publishers with fast, slow and blocked handlers are closed before readiness, mid-stream, after the stream or never, while generated streams flow; the recorded callback log is compared one for one (type and object identity) with the events a witness subscription created back-to-back received, OnInitialize must come first, once, with the publisher's content at readiness, callbacks must never overlap nor be entered after Done was observed, and a publisher that dies before readiness must cause no callback.",
+            "Typed monitors are compared against untyped ones in C20.",
+            "DESIGN.md section 4, C16"),
     "C06": ("exploration",
             "model-based stateful property testing (rapid state machine over a tree of real kcache nodes fed by a fake API server), double-marker barriers, reference-predicate conjunction + strict event-replay mirrors; quiet and perturbed-schedule modes",
             "Generated trees of all six attach kinds (depth <= 3) over a real controller; every operation (server change, attach, Refilter, lost watch events + gated relist) is followed by a marker barrier and then every live node's cache is compared with the conjunction of reference predicates on its path applied to the controller's view, and a consumer-side strict mirror built from its Events() with its cache. A second mode runs server traffic and Refilter scripts concurrently under logger-driven schedule perturbation and judges convergence and stream well-formedness at a final barrier. Exploration: histories and interleavings are sampled; orderings that pass through collaborators (list vs watch, refilter vs event) are sequenced by the harness itself.",
